@@ -71,11 +71,13 @@ PROPS = {
         "native": [
             {"name": "type_universe_distinct_and_stable", "bin": "replay_c14", "crate": "replay", "twice": True,
              "pre": "python3 lib/gen_c14_universe.py out/aux/c14_universe.rs", "tiers": ("quick", "thorough"),
-             "bound": "6345 types of a generated constructor-closed universe (EVERY leaf type that has an Identifiable impl incl. the smallvec/bitvec features, all unary constructors over the main leaves, every `?Sized`-accepting constructor over every unsized leaf, Cow over borrowed AND owned forms, nestings to depth 3, binary constructors in both argument orders, permuted tuples, array lengths, derived user types): ids evaluated on the real crate, pairwise distinct, identical in two separate processes"},
+             "bound": "6345 types of a generated constructor-closed universe (EVERY leaf type that has an Identifiable impl incl. the smallvec/bitvec features, all unary constructors over the main leaves, every `?Sized`-accepting constructor over every unsized leaf, Cow over borrowed AND owned forms, nestings to depth 3, binary constructors in both argument orders, permuted tuples, array lengths, derived user types): ids evaluated on the real crate, pairwise distinct, identical in two separate processes; plus a crafted family of type NAMES fed to from_unique_type_name: names of every length 1..72 changed in one byte (hand-picked pairs and every single-bit pair) or by swapping adjacent bytes at every position must get distinct ids"},
             {"name": "store_addressing_through_both_write_paths", "bin": "replay_c11", "crate": "replay_db", "release": False, "tiers": ("quick", "thorough"), "thorough_seeds": 2,
              "bound": "the C11 real-backend run (direct and serialization-buffer write paths, first touch of a column after a reopen, several operations on one slot in one buffer, empty encodings): every operation must land in the column of its own column type"},
             {"name": "store_slots_by_type_id", "bin": "replay_c14_store", "crate": "replay_db", "release": False, "tiers": ("quick", "thorough"), "thorough_seeds": 1,
              "bound": "the REAL RocksDB and Fjall backends: 24 column types with crafted stable type ids whose renderings are easy to confuse (leading-zero halves, digits moving between the 64-bit halves, swapped / zero halves, prefixes of one another), both column kinds: each column holds its own index, read back in the same session and after a reopen (column-family / keyspace names are derived from the id by format!: not under contract)"},
+            {"name": "query_key_hash_is_history_free", "bin": "replay_c13", "crate": "replay", "twice": True, "tiers": ("quick", "thorough"), "thorough_seeds": 16,
+             "bound": "the C13 bounded run (the hash half of a QueryID is the stable hash of the query key): unordered collections built by different insertion orders / capacities / hasher states hash equally, identical digests in two separate processes, distinct values of the framing-trap universes hash differently"},
         ],
         "witness": witness.c14,
         "assumptions": [
@@ -123,6 +125,7 @@ PROPS = {
             "BloomFilter::clear and CountMinSketch::reset (`for word in &mut ..`: rule R16, &mut form, vstd IterMut model) are under contract with functional postconditions: every word zero / every word halved nibble-wise (lemma_halved_nibbles, bit-vector); Kani re-establishes the word arithmetic on the compiled code",
             "Policy::new (f64 arithmetic) is not under contract: the invariant's capacity relations are a precondition of the proof, checked on the real constructor by the bounded run policy_new_capacities (hook)",
             "dispatcher (tiny_lfu.rs process_write / process_message): proved that every message is delivered to its handler with its own key whatever the storage map answers (struct stand-in TinyLFUInner: storage is opaque with arbitrary query results; owner_answers is the DEFINED relation proved of remove_closure); process_policy_message (the whole maintenance pass: pop loop, drained read hits, Poll-mode trim) keeps the policy invariant and parks only keys the owner refused to give up, for any contents of the (opaque, concurrently filled) buffers -- its termination is not verified (other threads keep pushing); try_maintenance and the buffers themselves are not under contract; ReadBuffer::drain is a stand-in returning a Vec instead of `impl Iterator`",
+            "progress clause (stays bounded, Poll strategy): attempt_to_trim_overflowing_pinned stops only at an empty parked region or at an entry whose owner refused in this very call (`trimmed`), and process_policy_message establishes `pinned_trimmed` at the end of every pass in Poll mode -- released entries in front of the first still-pinned one are gone after each pass (released entries behind it wait for a later pass: that is the code's own policy, not proved to be bounded in time)",
             "the maintenance pass as a whole forgets only keys the owner gave up UNDER THE ENTRY LOCK (owner_answers, proved of remove_closure) or removed itself (Removed message): an eviction path that checks the pin and removes in two steps (read_sync + remove_sync stand-ins establish no such event) fails this clause",
             "concurrency is NOT decided: write_buffer/read_buffer lag between storage map and policy, DedicatedThread mode; the lock-table sentence of the property (query_lock_manager.rs: is_pinned = Arc::strong_count > 1) is covered only by the bounded lock-table run",
         ],
